@@ -212,6 +212,12 @@ def find_fn(src, mask, lo, hi, name):
         if m:
             # make sure this block is the fn body, not e.g. a where-clause block
             hits.append((hs, hs + m.start(), ob, cb))
+    if len(hits) > 1:
+        # D1b: cargo features are off (pilota's default feature set is empty): a definition guarded by
+        # a positive `#[cfg(feature = "..")]` does not exist in the build under verification
+        live = [h for h in hits if not re.search(r'#\[cfg\(feature\s*=', mask[h[0]:h[1]])]
+        if len(live) == 1:
+            hits = live
     if not hits:
         raise Lost('fn %s not found' % name)
     if len(hits) > 1:
@@ -312,6 +318,8 @@ def rewrite_body(text, counts, opts):
     """Apply D1..D12 to a function's text (attributes + signature + body)."""
     # D1 attributes on the fn and inside
     text, n = re.subn(r'(?m)^[ \t]*#\[(inline(\([a-z]+\))?|cold|doc[^\]]*|allow[^\]]*|must_use)\]\s*\n', '', text)
+    counts.hit('D1_attr_removed', n)
+    text, n = re.subn(r'(?m)^[ \t]*#\[cfg\(not\(feature\s*=\s*"[^"]*"\)\)\]\s*\n', '', text)
     counts.hit('D1_attr_removed', n)
     # D7 assert_remaining!
     def ar(args):
@@ -653,13 +661,13 @@ def assemble(unit_path, repo, vf_dir):
             keep = opts.get('derive', '')
             def fix_derive(m):
                 ds = [d.strip() for d in m.group(1).split(',')]
-                ks = [d for d in ds if d in ('Clone', 'Copy') or d in keep.split(',')]
+                ks = [d for d in ds if (d in ('Clone', 'Copy') and keep != 'none') or d in keep.split(',')]
                 A.counts.hit('D9_derives_dropped', len(ds) - len(ks))
                 if 'PartialEq' in ks and 'Eq' in ks:
                     ks.append('Structural')   # D9b: Verus' marker that the derived == is structural equality
                 return ('#[derive(%s)]\n' % ', '.join(ks)) if ks else ''
             text = re.sub(r'#\[derive\(([^)]*)\)\]\s*\n', fix_derive, text)
-            text = re.sub(r'(?m)^[ \t]*#\[(non_exhaustive|cfg_attr[^\]]*)\]\s*\n', '', text)
+            text = re.sub(r'(?m)^[ \t]*#\[(non_exhaustive|cfg_attr[^\]]*|cfg\(not\(feature[^\]]*)\]\s*\n', '', text)
             text = re.sub(r'pub\(crate\)', 'pub', text)
             if kind == 'const' and opts.get('exec_const'):
                 # D14b: `const N: T = E;` -> `exec const N: T ensures N == <value from the .vu> { E }`
